@@ -1,4 +1,5 @@
 import Zc.Proofs.DecodeLib
+import Zc.Proofs.DecodeRefute
 /-! # C02 — the decoder is total, bounded and faithful on arbitrary datagrams
 
 `parse b` is the model of `DNSIncoming(b)` followed by `.answers()` (`Zc.Wire.DecodeLib`), a total
@@ -32,6 +33,18 @@ theorem C02_depth (b : Bytes) : (parse b).st.maxDepth ≤ 129 := by
   have h := (parseWith_spec libCfg_ok b).eff.depthB
   simp at h
   exact h
+
+/-- the bound is reached: a chain of 128 pointer hops is accepted at depth 129, one more hop is rejected
+(as an invalid message, not as an exception) -/
+example : (parse (chainPacket 128)).st.maxDepth = 129 ∧ (parse (chainPacket 128)).parsed?.map (·.valid) = some true
+    ∧ (parse (chainPacket 129)).st.maxDepth = 129 ∧ (parse (chainPacket 129)).parsed?.map (·.valid) = some false := by
+  decide +kernel
+
+/-- **D2**: the bound is owed to the hop test.  On the decoder without it (`noHopCfg`, the unrepaired
+tree) a 277-byte datagram already nests 131 deep, and the depth grows with the chain until the
+interpreter's limit raises `RecursionError`, which is not in `DECODE_EXCEPTIONS`. -/
+theorem C02_depth_refuted_without_hop_bound : ¬ ∀ b : Bytes, (parseWith noHopCfg b).st.maxDepth ≤ 129 :=
+  depth_unbounded_without_hop_bound
 
 /-- **Bounded work.** For a datagram of `n` bytes: at most `3n + 2` calls of `_read_name`, at most
 129 activations of `_decode_labels_at_offset` per name, at most `n` label reads per activation. -/
